@@ -3,6 +3,7 @@ import itertools
 import os
 import random
 import tempfile
+from engine.ob import REPO_SRC  # noqa: E402
 from engine.ob import Obligation, post, reset_tally_caches
 
 LEVEL = 'other'
@@ -99,7 +100,7 @@ def _region(amount):
 def _table_path():
     import hashlib
     h = hashlib.sha1()
-    for root, _, fns in os.walk('/repo/src/tally'):
+    for root, _, fns in os.walk(REPO_SRC + '/tally'):
         for fn in sorted(fns):
             if fn.endswith('.py'):
                 with open(os.path.join(root, fn), 'rb') as f:
@@ -111,8 +112,8 @@ def _table_path():
 
 
 _ONE = '''
-import sys, json
-sys.path.insert(0, "/verif")
+import sys, json, os
+sys.path.insert(0, os.environ["VERIF_ROOT"])
 from harness import C07
 which, di, mi, ri = sys.argv[1], int(sys.argv[2]), int(sys.argv[3]), int(sys.argv[4])
 r = C07._digest(C07._classify(C07._load(which), C07.DESCS[di], C07.REGION_REPR[ri], C07.MEMOS[mi]))
@@ -124,6 +125,7 @@ def prepare(tier, seed):
     """Reference table: every (file, description, memo, amount region) classified in its OWN fresh interpreter."""
     import json
     import subprocess
+    import sys
     from concurrent.futures import ThreadPoolExecutor
     path = _table_path()
     if os.path.exists(path):
@@ -134,7 +136,8 @@ def prepare(tier, seed):
     def one(k):
         env = dict(os.environ)
         env['VERIF_C07_FILES'] = json.dumps(_FILES)
-        p = subprocess.run([os.path.join('/verif/.venv/bin/python'), '-c', _ONE] + [str(x) for x in k], capture_output=True, text=True, env=env, timeout=120)
+        env['VERIF_ROOT'] = os.path.dirname(os.path.dirname(os.path.abspath(__file__)))
+        p = subprocess.run([sys.executable, '-c', _ONE] + [str(x) for x in k], capture_output=True, text=True, env=env, timeout=120)
         if p.returncode != 0:
             raise RuntimeError('fresh-process reference failed: ' + p.stderr[-400:])
         return json.loads(p.stdout.strip().splitlines()[-1])
@@ -242,7 +245,7 @@ def fixtures_sane():
 
         def __call__(self, **kw):
             import sys
-            sys.path.insert(0, '/repo/src')
+            sys.path.insert(0, REPO_SRC)
             reset_tally_caches()
             a = _digest(_classify(_load('A'), 'A', 5, 'zz'))
             b = _digest(_classify(_load('B'), 'A', 5, 'zz'))
